@@ -103,12 +103,12 @@ def main(tier):
                   real=d, expected=d["expected"])
 
     # ---- IR programs: correspondence, model statement, oracle -----------------------------------------------
-    n = 1200 if quick else 20000
+    n = 1200 if quick else 12000
     nassign = 2 if quick else 6
     for t in range(n):
         be = r.random() < 0.4
-        profile = r.choice(["regs", "conc", "mixed", "mixed", "ptr"])
-        prog = Gen(r, profile, be).program()
+        profile = r.choice(["regs", "conc", "mixed", "mixed", "ptr", "alias-shapes"])
+        prog = map_gen.shaped_alias_program(r, be) if profile == "alias-shapes" else Gen(r, profile, be).program()
         ck.count("programs.%s.%s" % (profile, "be" if be else "le"))
         ck.count("length.%d" % len(prog["stmts"]))
         for noal, mt in SETTINGS:
@@ -151,7 +151,7 @@ def main(tier):
             ck.sample({"prog": prog, "shape": shape(prog)})
 
     # ---- composition m1 >> m2 ----------------------------------------------------------------------------------
-    ncomp = 250 if quick else 5000
+    ncomp = 250 if quick else 3000
     for t in range(ncomp):
         be = r.random() < 0.4
         profile = r.choice(["regs", "conc", "mixed", "ptr"])
@@ -205,7 +205,7 @@ def main(tier):
     except ImportError:
         map_isa = None
     if map_isa is not None and not os.environ.get("MAP_NO_ISA"):
-        budget = (150 - (time.time() - t_start)) if quick else 1000
+        budget = (150 - (time.time() - t_start)) if quick else 900
         map_isa.run(ck, tier, rng("C02.isa"), max(40, budget))
         ck.oblige("ISA-level oracle ran", True)
     else:
